@@ -331,6 +331,7 @@ def gen_coeffs():
     # per-kernel wiring: Mfunc call argument lists, bc guards, bc terms, flat index
     out.append(gen_kernel_wiring())
     out.append(gen_kernel_sigs())
+    out.append(gen_kernel_programs())
     out.append('end C')
     # ---- Python side
     path = os.path.join(REPO, 'dadi', 'Integration.py')
@@ -843,6 +844,571 @@ def gen_kernel_sigs():
     emit(name='tridiag', d=1, ax=0, pre=True, pyxParams=pn, pyxCall=cargs, pyxReturns=ret, cParams=[a[0] for a in tf_['tridiag'][0]],
          phi='r', grids=[], nu='', mig=[], gamma='', h='', beta=None, dt='', delj='', coef=['a', 'b', 'c'], dims=['n'])
     return KERNEL_SIG_TYPE + '\ndef kernelSigs : List KernelSig := [\n' + ',\n'.join(items) + '\n]'
+
+# ----------------------------------------------------------------------------------------
+# Kernel programs: the BODIES of implicit_{d}D{x,y,z,a,b} and implicit_precalc_{d}D{x,y,z}, statement by statement.
+#   A small C parser (declarations, expression statements, `for`, `if`, blocks) and a symbolic walk:
+#     * every `for` variable is numbered by what it is — `.outer k`: the variable of the k-th loop of the (perfect) loop nest,
+#       `.it`: the variable of a tabulation loop (a loop whose body only assigns array elements) — so renaming a loop variable
+#       translates to the same program; a variable used outside its loop does not translate;
+#     * local work arrays are named by what they hold (output position of `compute_dx` / `compute_dfactor` / `compute_xInt` /
+#       `compute_delj` / `compute_abc_nobc` / the solver; `V[i] = Vfunc*(grid[i], …)` → V, `…(local[i], …)` → VInt,
+#       `… = Mfunc*(…)` → MInt; anything else by the position at which the solver consumes it); scalar aliases of grid values
+#       (`y = yy[jj]`) and `index = <flat index>` are substituted;
+#     * every index of `phi` (and of the coefficient arrays of the precalc kernels) is expanded into a linear form
+#       Σ loop variable · Π extent parameters; parameters stay NAMES (resolved against `kernelSigs` in Lean).
+#   Anything outside this statement language is a TranslateError.
+# ----------------------------------------------------------------------------------------
+KERNEL_PROG_TYPE = '''/-! ### kernel programs (bodies of the C kernels translated statement by statement) -/
+/-- an `int` expression used as loop bound / extent / constant index: literal, or an `int` parameter minus a literal -/
+inductive KBound where
+  | lit (n : Nat) | par (name : String) (minus : Nat)
+deriving DecidableEq, Repr
+/-- loop variables by what they are: variable of the k-th loop of the loop nest / variable of a tabulation loop -/
+inductive KVar where
+  | outer (level : Nat) | it
+deriving DecidableEq, Repr
+/-- index into a 1-D array -/
+inductive KIx where
+  | var (v : KVar) (plus : Nat) | bnd (b : KBound)
+deriving DecidableEq, Repr
+/-- one term of a flat index: loop variable times the product of the named extents -/
+structure KTerm where
+  var : KVar
+  strides : List String
+deriving DecidableEq, Repr
+/-- a C parameter (by name) or a local (by what it holds) -/
+inductive KRef where
+  | par (name : String) | loc (role : String)
+deriving DecidableEq, Repr
+inductive KExpr where
+  | num (n d : Nat) | sc (r : KRef) | arr (r : KRef) (ix : KIx) | flat (r : KRef) (idx : List KTerm)
+  | neg (e : KExpr) | add (a b : KExpr) | sub (a b : KExpr) | mul (a b : KExpr) | div (a b : KExpr)
+deriving DecidableEq, Repr
+/-- argument of a procedure call: array, `&array[flat index]`, extent, value -/
+inductive KArg where
+  | ptr (r : KRef) | addr (r : KRef) (idx : List KTerm) | ext (b : KBound) | val (e : KExpr)
+deriving DecidableEq, Repr
+inductive KCmp where
+  | eq (e : KExpr) (n : Nat) | le0 (e : KExpr) | ge0 (e : KExpr)
+deriving DecidableEq, Repr
+inductive KStmt where
+  | proc (fn : String) (args : List KArg)                                        -- compute_dx(xx, L, dx); tridiag_premalloc(…)
+  | setSc (role : String) (fn : String) (args : List KExpr)                      -- Mfirst = Mfunc3D(…)
+  | tab (role : String) (lo hi : KBound) (fn : Option String) (args : List KExpr) -- for(v=lo; v<hi; v++) role[v] = fn(args) | = args[0]
+  | store (lo hi : KBound) (r : KRef) (idx : List KTerm) (e : KExpr)             -- for(v=lo; v<hi; v++) r[idx] = e
+  | bc (cond : List KCmp) (role : String) (ix : KIx) (e : KExpr)                 -- if(cond) role[ix] += e
+deriving DecidableEq, Repr
+structure KernelProg where
+  name : String
+  d : Nat
+  ax : Nat
+  pre : Bool
+  allocs : List (String × KBound)      -- local work array (by role) ↦ allocated length
+  nest : List (KBound × KBound)        -- the loop nest, outermost first: `for(v = lo; v < hi; v++)`
+  stmts : List KStmt                   -- all other statements in source order
+deriving DecidableEq, Repr'''
+
+_C_TOK = re.compile(r'\s*(?:(\d+\.\d*(?:[eE][-+]?\d+)?|\.\d+|\d+)|([A-Za-z_]\w*)|(\+\+|--|\+=|-=|\*=|/=|==|!=|<=|>=|&&|\|\||[-+*/=<>!&(){}\[\],;]))')
+
+def _c_tokens(text):
+    toks = []; i = 0; n = len(text)
+    while i < n:
+        m = _C_TOK.match(text, i)
+        if not m:
+            if text[i:].strip() == '': break
+            raise TranslateError('C token at %r' % text[i:i+20])
+        if m.group(1) is not None: toks.append(('num', m.group(1)))
+        elif m.group(2) is not None: toks.append(('id', m.group(2)))
+        else: toks.append(('op', m.group(3)))
+        i = m.end()
+    return toks
+
+class _CParser:
+    """statements: ('decl', ctype, [(name, isptr, init)]) | ('expr', e) | ('for', init, cond, step, body) | ('if', cond, body) | ('block', [s])
+       expressions: ('num', text) | ('id', n) | ('idx', base, i) | ('call', fn, [args]) | ('un', op, e) | ('bin', op, l, r)
+                    | ('assign', op, lhs, rhs) | ('inc', e) | ('sizeof', text)"""
+    TYPES = ('int', 'double')
+    def __init__(self, text, where):
+        self.t = _c_tokens(text); self.i = 0; self.where = where
+    def err(self, what):
+        ctx = ' '.join(x[1] for x in self.t[max(0, self.i-4):self.i+6])
+        raise TranslateError('%s: %s near `%s`' % (self.where, what, ctx))
+    def peek(self, k=0):
+        return self.t[self.i+k] if self.i+k < len(self.t) else ('eof', '')
+    def next(self):
+        tk = self.peek(); self.i += 1; return tk
+    def accept(self, v):
+        if self.peek() == ('op', v): self.i += 1; return True
+        return False
+    def expect(self, v):
+        if not self.accept(v): self.err('expected `%s`' % v)
+    def body(self):
+        out = []
+        while self.peek()[0] != 'eof':
+            out.append(self.stmt())
+        return out
+    def stmt(self):
+        k, v = self.peek()
+        if (k, v) == ('op', '{'):
+            self.next(); out = []
+            while not self.accept('}'):
+                if self.peek()[0] == 'eof': self.err('unterminated block')
+                out.append(self.stmt())
+            return ('block', out)
+        if k == 'id' and v in self.TYPES:
+            self.next(); items = []
+            while True:
+                isptr = self.accept('*')
+                kk, name = self.next()
+                if kk != 'id': self.err('declarator')
+                init = None
+                if self.accept('='): init = self.expr(1)
+                items.append((name, isptr, init))
+                if self.accept(','): continue
+                self.expect(';'); break
+            return ('decl', v, items)
+        if k == 'id' and v == 'for':
+            self.next(); self.expect('(')
+            init = self.expr(); self.expect(';'); cond = self.expr(); self.expect(';'); step = self.expr(); self.expect(')')
+            return ('for', init, cond, step, self.stmt())
+        if k == 'id' and v == 'if':
+            self.next(); self.expect('('); cond = self.expr(); self.expect(')')
+            body = self.stmt()
+            if self.peek() == ('id', 'else'): self.err('`else` is outside the kernel statement language')
+            return ('if', cond, body)
+        if k == 'id' and v in ('while', 'do', 'switch', 'goto', 'break', 'continue', 'return', 'else'):
+            self.err('`%s` is outside the kernel statement language' % v)
+        e = self.expr(); self.expect(';')
+        return ('expr', e)
+    PREC = [('||',), ('&&',), ('==', '!='), ('<', '<=', '>', '>='), ('+', '-'), ('*', '/')]
+    def expr(self, lvl=0):
+        if lvl == 0:
+            lhs = self.expr(1)
+            k, v = self.peek()
+            if k == 'op' and v in ('=', '+=', '-=', '*=', '/='):
+                self.next(); rhs = self.expr(0)
+                return ('assign', v, lhs, rhs)
+            return lhs
+        if lvl - 1 < len(self.PREC):
+            ops = self.PREC[lvl - 1]
+            l = self.expr(lvl + 1)
+            while self.peek()[0] == 'op' and self.peek()[1] in ops:
+                op = self.next()[1]; r = self.expr(lvl + 1)
+                l = ('bin', op, l, r)
+            return l
+        return self.unary()
+    def unary(self):
+        k, v = self.peek()
+        if k == 'op' and v in ('-', '+', '!', '&', '*'):
+            self.next(); return ('un', v, self.unary())
+        if k == 'op' and v in ('++', '--'):
+            self.next(); e = self.unary()
+            if v == '--': self.err('decrement')
+            return ('inc', e)
+        return self.postfix()
+    def postfix(self):
+        k, v = self.next()
+        if k == 'num': e = ('num', v)
+        elif k == 'id' and v == 'sizeof':
+            self.expect('('); depth = 1; txt = []
+            while depth:
+                kk, vv = self.next()
+                if kk == 'eof': self.err('sizeof')
+                if (kk, vv) == ('op', '('): depth += 1
+                if (kk, vv) == ('op', ')'): depth -= 1
+                if depth: txt.append(vv)
+            e = ('sizeof', ''.join(txt))
+        elif k == 'id': e = ('id', v)
+        elif (k, v) == ('op', '('):
+            e = self.expr(); self.expect(')')
+        else:
+            self.i -= 1; self.err('expression')
+        while True:
+            if self.accept('['):
+                i = self.expr(); self.expect(']'); e = ('idx', e, i)
+            elif self.peek() == ('op', '(') and e[0] == 'id':
+                self.next(); args = []
+                if not self.accept(')'):
+                    while True:
+                        args.append(self.expr(1))
+                        if self.accept(','): continue
+                        self.expect(')'); break
+                e = ('call', e[1], args)
+            elif self.accept('++'):
+                e = ('inc', e)
+            elif self.peek() == ('op', '--'):
+                self.err('decrement')
+            else:
+                return e
+
+def _c_show(e):
+    k = e[0]
+    if k in ('num', 'id'): return e[1]
+    if k == 'idx': return '%s[%s]' % (_c_show(e[1]), _c_show(e[2]))
+    if k == 'call': return '%s(%s)' % (e[1], ', '.join(_c_show(a) for a in e[2]))
+    if k == 'un': return '%s%s' % (e[1], _c_show(e[2]))
+    if k == 'bin': return '(%s %s %s)' % (_c_show(e[2]), e[1], _c_show(e[3]))
+    if k == 'assign': return '%s %s %s' % (_c_show(e[2]), e[1], _c_show(e[3]))
+    if k == 'inc': return '%s++' % _c_show(e[1])
+    if k == 'sizeof': return 'sizeof(%s)' % e[1]
+    return repr(e)
+
+# procedures of the statement language: name -> list of (kind, role) per argument; kind in/out/ext/val
+_K_PROCS = {
+    'compute_dx': [('in', None), ('ext', None), ('out', 'dx')],
+    'compute_dfactor': [('in', None), ('ext', None), ('out', 'dfactor')],
+    'compute_xInt': [('in', None), ('ext', None), ('out', 'xInt')],
+    'compute_delj': [('in', None), ('in', None), ('in', None), ('ext', None), ('out', 'delj'), ('val', None)],
+    'compute_abc_nobc': [('in', None)] * 5 + [('val', None), ('ext', None), ('out', 'a'), ('out', 'b'), ('out', 'c')],
+    'tridiag_premalloc': [('use', 'a'), ('use', 'b'), ('use', 'c'), ('use', 'r'), ('out', 'sol'), ('ext', None)],
+    'tridiag': [('use', 'a'), ('use', 'b'), ('use', 'c'), ('use', 'r'), ('out', 'sol'), ('ext', None)],
+    'tridiag_malloc': [('ext', None)],
+}
+_K_VFUNCS = ('Vfunc', 'Vfunc_beta')
+
+class _KernelTr:
+    def __init__(self, name, d, ax, pre, args, body, where):
+        self.name, self.d, self.ax, self.pre, self.where = name, d, ax, pre, where
+        self.ptr = [a[0] for a in args if a[1]]                       # double* parameters
+        self.dbl = [a[0] for a in args if not a[1] and a[2] == 'double']
+        self.int = [a[0] for a in args if not a[1] and a[2] == 'int']
+        if len(self.ptr) + len(self.dbl) + len(self.int) != len(args):
+            raise TranslateError('%s: parameter types' % where)
+        self.ast = _CParser(body, where).body()
+        self.ivars = set(); self.dlocals = set(); self.arrays = {}     # local int / double scalars / arrays (name -> alloc bound)
+        self.alias = {}                                                # scalar local -> KExpr text (grid value) ; int local -> flat index
+        self.scrole = {}                                               # scalar local -> role
+        self.role = {}                                                 # local array -> role
+        self.pending = []                                              # tabs whose target has no role yet
+        self.scope = []                                                # [(cname, leanvar)]
+        self.nest = []; self.stmts = []; self.nest_done = False
+        self.defined = set()
+
+    def err(self, what, node=None):
+        raise TranslateError('%s: %s%s' % (self.where, what, (': `%s`' % _c_show(node)) if node is not None else ''))
+
+    # ---- integers
+    def bound(self, e):
+        if e[0] == 'num' and re.match(r'^\d+$', e[1]): return ('lit', int(e[1]))
+        if e[0] == 'id' and e[1] in self.int: return ('par', e[1], 0)
+        if e[0] == 'bin' and e[1] == '-' and e[2][0] == 'id' and e[2][1] in self.int and e[3][0] == 'num' and re.match(r'^\d+$', e[3][1]):
+            return ('par', e[2][1], int(e[3][1]))
+        self.err('integer expression outside the bound language (literal | int parameter [- literal])', e)
+    def lvar(self, name, node):
+        for cn, lv in reversed(self.scope):
+            if cn == name: return lv
+        if name in self.alias: return None
+        if name in self.ivars: self.err('loop variable `%s` used outside its loop' % name, node)
+        return None
+    def linear(self, e):
+        """flat index -> list of (leanvar, [extent names]); every monomial has exactly one loop variable and coefficient 1"""
+        def mono(x):
+            if x[0] == 'bin' and x[1] == '*': return mono(x[2]) + mono(x[3])
+            if x[0] == 'id': return [x[1]]
+            self.err('flat index: factor outside (loop variable | int parameter)', x)
+        def terms(x):
+            if x[0] == 'bin' and x[1] == '+': return terms(x[2]) + terms(x[3])
+            if x[0] == 'id' and x[1] in self.alias and self.alias[x[1]][0] == 'flat': return list(self.alias[x[1]][1])
+            fs = mono(x); vs = [f for f in fs if self.lvar(f, x) is not None]; ps = [f for f in fs if f in self.int]
+            if len(vs) != 1 or len(vs) + len(ps) != len(fs): self.err('flat index: term is not (one loop variable) * (int parameters)', x)
+            return [(self.lvar(vs[0], x), ps)]
+        return terms(e)
+    def ix(self, e):
+        if e[0] == 'id' and self.lvar(e[1], e) is not None: return ('var', self.lvar(e[1], e), 0)
+        if e[0] == 'bin' and e[1] == '+' and e[2][0] == 'id' and self.lvar(e[2][1], e) is not None and e[3][0] == 'num' and re.match(r'^\d+$', e[3][1]):
+            return ('var', self.lvar(e[2][1], e), int(e[3][1]))
+        return ('bnd', self.bound(e))
+
+    # ---- references / expressions
+    def ref(self, name, node, reading=True):
+        if name in self.ptr: return ('par', name)
+        if name in self.arrays:
+            if reading and name not in self.defined: self.err('work array `%s` read before it is filled' % name, node)
+            return ('locname', name)
+        self.err('`%s` is not an array' % name, node)
+    def is_int(self, e):
+        return (e[0] == 'num' and re.match(r'^\d+$', e[1]) is not None) or (e[0] == 'id' and (e[1] in self.int or e[1] in self.ivars))
+    def expr(self, e):
+        k = e[0]
+        if k == 'num':
+            fr = Fraction(e[1] + '0' if e[1].endswith('.') else e[1])
+            return ('num', fr.numerator, fr.denominator)
+        if k == 'id':
+            n = e[1]
+            if n in self.dbl: return ('sc', ('par', n))
+            if n in self.int: return ('sc', ('par', n))        # an int switch passed on as a value (use_delj_trick)
+            if n in self.alias and self.alias[n][0] == 'expr': return self.alias[n][1]
+            if n in self.scrole: return ('sc', ('loc', self.scrole[n]))
+            if n in self.dlocals: self.err('scalar `%s` read before it is assigned' % n, e)
+            self.err('name `%s` in a value expression' % n, e)
+        if k == 'idx':
+            if e[1][0] != 'id': self.err('indexed expression', e)
+            r = self.ref(e[1][1], e)
+            i = e[2]
+            simple = (i[0] == 'num') or (i[0] == 'id' and (self.lvar(i[1], e) is not None or i[1] in self.int)) or \
+                     (i[0] == 'bin' and i[1] in '+-' and i[3][0] == 'num' and i[2][0] == 'id')
+            if i[0] == 'id' and i[1] in self.alias and self.alias[i[1]][0] == 'flat': simple = False
+            if simple: return ('arr', r, self.ix(i))
+            return ('flat', r, self.linear(i))
+        if k == 'un' and e[1] == '-': return ('neg', self.expr(e[2]))
+        if k == 'un' and e[1] == '+': return self.expr(e[2])
+        if k == 'bin' and e[1] in '+-*/':
+            if e[1] == '/' and self.is_int(e[2]) and self.is_int(e[3]): self.err('integer division', e)
+            return ({'+': 'add', '-': 'sub', '*': 'mul', '/': 'div'}[e[1]], self.expr(e[2]), self.expr(e[3]))
+        self.err('expression outside the kernel expression language', e)
+    def cond(self, e):
+        if e[0] == 'bin' and e[1] == '&&': return self.cond(e[2]) + self.cond(e[3])
+        if e[0] == 'bin' and e[1] in ('==', '<=', '>=') and e[3][0] == 'num' and re.match(r'^\d+$', e[3][1]):
+            v = int(e[3][1]); x = self.expr(e[2])
+            if e[1] == '==': return [('eq', x, v)]
+            if v == 0: return [('le0', x) if e[1] == '<=' else ('ge0', x)]
+        self.err('condition outside (e == literal | e <= 0 | e >= 0) && …', e)
+
+    # ---- statements
+    def set_role(self, name, role, node):
+        old = self.role.get(name)
+        if old is not None and old != role: self.err('local array `%s` re-used (holds %s, now %s)' % (name, old, role), node)
+        for n2, r2 in self.role.items():
+            if r2 == role and n2 != name: self.err('two local arrays hold %s (`%s`, `%s`)' % (role, n2, name), node)
+        self.role[name] = role
+    def call_stmt(self, e):
+        fn, args = e[1], e[2]
+        if fn == 'free':
+            if len(args) != 1 or args[0][0] != 'id' or args[0][1] not in self.arrays: self.err('free of something that is not a local array', e)
+            return
+        if fn == 'tridiag_free':
+            if args: self.err('arguments', e)
+            return
+        sig = _K_PROCS.get(fn)
+        if sig is None: self.err('call of `%s` is outside the kernel statement language' % fn, e)
+        if len(sig) != len(args): self.err('number of arguments', e)
+        out = []; outs = []
+        for (kind, role), a in zip(sig, args):
+            if kind == 'ext': out.append(('ext', self.bound(a)))
+            elif kind == 'val': out.append(('val', self.expr(a)))
+            else:
+                if a[0] == 'id':
+                    if a[1] in self.ptr: out.append(('addr', ('par', a[1]), []) if kind == 'out' else ('ptr', ('par', a[1])))
+                    elif a[1] in self.arrays:
+                        if kind == 'out': self.set_role(a[1], role, e); outs.append(a[1])
+                        elif kind == 'use':
+                            if a[1] not in self.role: self.set_role(a[1], role, e)
+                            if a[1] not in self.defined: self.err('work array `%s` used before it is filled' % a[1], e)
+                        elif a[1] not in self.defined: self.err('work array `%s` used before it is filled' % a[1], e)
+                        out.append(('ptr', ('locname', a[1])))
+                    else: self.err('array argument', a)
+                elif a[0] == 'un' and a[1] == '&' and a[2][0] == 'idx' and a[2][1][0] == 'id' and a[2][1][1] in self.ptr:
+                    out.append(('addr', ('par', a[2][1][1]), self.linear(a[2][2])))
+                else: self.err('array argument', a)
+        for n in outs: self.defined.add(n)
+        self.stmts.append(('proc', fn, out))
+    def assign_stmt(self, e, tabvar=None):
+        op, lhs, rhs = e[1], e[2], e[3]
+        if lhs[0] == 'id':
+            n = lhs[1]
+            if op != '=': self.err('compound assignment to a scalar', e)
+            if n in self.ivars and n not in [c for c, _ in self.scope]:
+                if n in self.alias: self.err('`%s` assigned twice' % n, e)
+                self.alias[n] = ('flat', self.linear(rhs)); return
+            if n not in self.dlocals: self.err('assignment to `%s`' % n, e)
+            if n in self.alias or n in self.scrole: self.err('scalar `%s` assigned twice' % n, e)
+            if rhs[0] == 'call':
+                if not re.match(r'^Mfunc\dD$', rhs[1]): self.err('scalar assigned from a call of `%s`' % rhs[1], e)
+                args = [self.expr(a) for a in rhs[2]]
+                first = args[0] if args else None
+                role = 'Mfirst' if (first is not None and first[0] == 'arr' and first[2] == ('bnd', ('lit', 0))) else 'Mlast'
+                if role in self.scrole.values(): self.err('two scalars hold %s' % role, e)
+                self.scrole[n] = role
+                self.stmts.append(('setSc', role, rhs[1], args)); return
+            x = self.expr(rhs)
+            if x[0] != 'arr' or x[1][0] != 'par': self.err('scalar alias of something that is not a grid value', e)
+            self.alias[n] = ('expr', x); return
+        if lhs[0] == 'idx' and lhs[1][0] == 'id':
+            n = lhs[1][1]
+            if n in self.arrays:
+                ixx = self.ix(lhs[2])
+                if op == '+=':
+                    self.err('`+=` on a work array outside an `if`', e)
+                if op != '=': self.err('assignment operator', e)
+                if tabvar is None or ixx != ('var', 'it', 0): self.err('work array element assigned outside a tabulation loop over that index', e)
+                if rhs[0] == 'call':
+                    fn = rhs[1]; args = [self.expr(a) for a in rhs[2]]
+                    if fn in _K_VFUNCS:
+                        first = args[0] if args else None
+                        role = 'V' if (first is not None and first[0] == 'arr' and first[1][0] == 'par') else 'VInt'
+                    elif re.match(r'^Mfunc\dD$', fn): role = 'MInt'
+                    else: self.err('call of `%s` is outside the kernel statement language' % fn, e)
+                    self.set_role(n, role, e)
+                    return ('tab', n, fn, args)
+                return ('tab', n, None, [self.expr(rhs)])
+            if n in self.ptr:
+                if op != '=' or tabvar is None: self.err('store into a parameter array outside a loop', e)
+                i = lhs[2]
+                idx = self.linear(i) if not (i[0] == 'id' and self.lvar(i[1], e) is not None) else [(self.lvar(i[1], e), [])]
+                return ('store', ('par', n), idx, self.expr(rhs))
+        self.err('assignment outside the kernel statement language', e)
+    def loop_header(self, s):
+        init, cond, step = s[1], s[2], s[3]
+        if not (init[0] == 'assign' and init[1] == '=' and init[2][0] == 'id' and init[2][1] in self.ivars): self.err('`for` initialisation', init)
+        v = init[2][1]
+        if any(c == v for c, _ in self.scope): self.err('loop variable `%s` re-used inside its own loop' % v, init)
+        if v in self.alias: self.err('`%s` is both an index alias and a loop variable' % v, init)
+        if not (cond[0] == 'bin' and cond[1] == '<' and cond[2] == ('id', v)): self.err('`for` condition is not `%s < extent`' % v, cond)
+        ok = (step == ('inc', ('id', v))) or (step[0] == 'assign' and step[1] == '+=' and step[2] == ('id', v) and step[3] == ('num', '1'))
+        if not ok: self.err('`for` step is not `%s++`' % v, step)
+        return v, self.bound(init[3]), self.bound(cond[3])
+    def flat_body(self, s):
+        return s[1] if s[0] == 'block' else [s]
+    def is_tab(self, body):
+        def simple(st):
+            if st[0] != 'expr' or st[1][0] != 'assign': return False
+            lhs = st[1][2]
+            return lhs[0] == 'idx' or (lhs[0] == 'id' and lhs[1] in self.ivars)
+        return len(body) > 0 and all(simple(st) for st in body)
+    def for_stmt(self, s):
+        v, lo, hi = self.loop_header(s)
+        body = self.flat_body(s[4])
+        if self.is_tab(body):
+            self.scope.append((v, 'it'))
+            saved = dict(self.alias)
+            res = []
+            for st in body:
+                r = self.assign_stmt(st[1], tabvar=v)
+                if r is not None: res.append(r)
+            # an index alias (`index = …`) lives for one iteration of this loop only
+            for k_ in [k_ for k_ in self.alias if k_ not in saved]: del self.alias[k_]
+            self.scope.pop()
+            for r in res:
+                if r[0] == 'tab':
+                    self.defined.add(r[1]); self.stmts.append(('tab', r[1], lo, hi, r[2], r[3]))
+                else:
+                    self.stmts.append(('store', lo, hi, r[1], r[2], r[3]))
+            return
+        # a loop of the nest: must be perfectly nested, and there is only one nest
+        if self.nest_done: self.err('a second loop nest', s[2])
+        if any(lv == 'it' for _, lv in self.scope): self.err('loop nest inside a tabulation loop', s[2])
+        level = len(self.nest)
+        self.nest.append((lo, hi)); self.scope.append((v, ('outer', level)))
+        inner = [st for st in body if st[0] == 'for' and not self.is_tab(self.flat_body(st[4]))]
+        if inner:
+            if len(body) != 1: self.err('loop nest is not perfect (statements next to an inner loop of the nest)', s[2])
+            self.for_stmt(body[0])
+        else:
+            for st in body: self.stmt(st)
+            self.nest_done = True
+        self.scope.pop()
+    def if_stmt(self, s):
+        body = self.flat_body(s[2])
+        if len(body) != 1 or body[0][0] != 'expr' or body[0][1][0] != 'assign' or body[0][1][1] != '+=': self.err('`if` body is not one `array[i] += e`', s[1])
+        a = body[0][1]; lhs = a[2]
+        if not (lhs[0] == 'idx' and lhs[1][0] == 'id' and lhs[1][1] in self.arrays): self.err('`+=` target', a)
+        n = lhs[1][1]
+        if n not in self.defined: self.err('work array `%s` updated before it is filled' % n, a)
+        self.stmts.append(('bc', self.cond(s[1]), n, self.ix(lhs[2]), self.expr(a[3])))
+    def decl_stmt(self, s):
+        for name, isptr, init in s[2]:
+            if name in self.ptr + self.dbl + self.int or name in self.ivars or name in self.dlocals or name in self.arrays:
+                self.err('`%s` declared twice / shadows a parameter' % name)
+            if s[1] == 'int':
+                if isptr or init is not None: self.err('int declaration with initialiser / pointer `%s`' % name)
+                self.ivars.add(name)
+            elif not isptr:
+                if init is not None: self.err('double declaration with initialiser `%s`' % name)
+                self.dlocals.add(name)
+            else:
+                ok = init is not None and init[0] == 'call' and init[1] == 'malloc' and len(init[2]) == 1 and init[2][0][0] == 'bin' and \
+                     init[2][0][1] == '*' and init[2][0][3][0] == 'sizeof' and init[2][0][3][1] in ('*' + name, 'double')
+                if not ok: self.err('array `%s` is not `malloc(extent * sizeof(*%s))`' % (name, name))
+                self.arrays[name] = self.bound(init[2][0][2])
+    def stmt(self, s):
+        k = s[0]
+        if self.nest_done and not self.scope and self.nest:
+            # after the loop nest only the release of the work arrays
+            if not (k == 'expr' and s[1][0] == 'call' and s[1][1] in ('free', 'tridiag_free')):
+                self.err('statement after the loop nest', s[1] if len(s) > 1 and isinstance(s[1], tuple) else None)
+        if k == 'decl':
+            if self.scope: self.err('declaration inside a loop')
+            return self.decl_stmt(s)
+        if k == 'block':
+            for st in s[1]: self.stmt(st)
+            return
+        if k == 'for': return self.for_stmt(s)
+        if k == 'if': return self.if_stmt(s)
+        if k == 'expr':
+            e = s[1]
+            if e[0] == 'call': return self.call_stmt(e)
+            if e[0] == 'assign':
+                r = self.assign_stmt(e)
+                if r is not None: self.err('array element assigned outside a tabulation loop', e)
+                return
+        self.err('statement outside the kernel statement language', s[1] if len(s) > 1 and isinstance(s[1], tuple) else None)
+
+    def run(self):
+        for s in self.ast: self.stmt(s)
+        for n in self.arrays:
+            if n in self.defined and n not in self.role: self.err('local array `%s` is filled but never handed to the solver' % n)
+        return self
+
+    # ---- emission
+    def L_bound(self, b):
+        return '(.lit %d)' % b[1] if b[0] == 'lit' else '(.par %s %d)' % (lstr(b[1]), b[2])
+    def L_var(self, v):
+        return '.it' if v == 'it' else '(.outer %d)' % v[1]
+    def L_ix(self, i):
+        return '(.var %s %d)' % (self.L_var(i[1]), i[2]) if i[0] == 'var' else '(.bnd %s)' % self.L_bound(i[1])
+    def L_idx(self, t):
+        return llist('⟨%s, %s⟩' % (self.L_var(v), llist(map(lstr, ps))) for v, ps in t)
+    def L_ref(self, r):
+        if r[0] == 'par': return '(.par %s)' % lstr(r[1])
+        if r[0] == 'loc': return '(.loc %s)' % lstr(r[1])
+        role = self.role.get(r[1])
+        if role is None: self.err('local array `%s` has no role' % r[1])
+        return '(.loc %s)' % lstr(role)
+    def L_expr(self, e):
+        k = e[0]
+        if k == 'num': return '(.num %d %d)' % (e[1], e[2])
+        if k == 'sc': return '(.sc %s)' % self.L_ref(e[1])
+        if k == 'arr': return '(.arr %s %s)' % (self.L_ref(e[1]), self.L_ix(e[2]))
+        if k == 'flat': return '(.flat %s %s)' % (self.L_ref(e[1]), self.L_idx(e[2]))
+        if k == 'neg': return '(.neg %s)' % self.L_expr(e[1])
+        return '(.%s %s %s)' % (k, self.L_expr(e[1]), self.L_expr(e[2]))
+    def L_arg(self, a):
+        if a[0] == 'ptr': return '(.ptr %s)' % self.L_ref(a[1])
+        if a[0] == 'addr': return '(.addr %s %s)' % (self.L_ref(a[1]), self.L_idx(a[2]))
+        if a[0] == 'ext': return '(.ext %s)' % self.L_bound(a[1])
+        return '(.val %s)' % self.L_expr(a[1])
+    def L_cmp(self, c):
+        return '(.eq %s %d)' % (self.L_expr(c[1]), c[2]) if c[0] == 'eq' else '(.%s %s)' % (c[0], self.L_expr(c[1]))
+    def L_stmt(self, s):
+        k = s[0]
+        if k == 'proc': return '.proc %s %s' % (lstr(s[1]), llist(map(self.L_arg, s[2])))
+        if k == 'setSc': return '.setSc %s %s %s' % (lstr(s[1]), lstr(s[2]), llist(map(self.L_expr, s[3])))
+        if k == 'tab':
+            return '.tab %s %s %s %s %s' % (lstr(self.role[s[1]]), self.L_bound(s[2]), self.L_bound(s[3]),
+                                            ('(some %s)' % lstr(s[4])) if s[4] else 'none', llist(map(self.L_expr, s[5])))
+        if k == 'store': return '.store %s %s %s %s %s' % (self.L_bound(s[1]), self.L_bound(s[2]), self.L_ref(s[3]), self.L_idx(s[4]), self.L_expr(s[5]))
+        if k == 'bc': return '.bc %s %s %s %s' % (llist(map(self.L_cmp, s[1])), lstr(self.role[s[2]]), self.L_ix(s[3]), self.L_expr(s[4]))
+        raise TranslateError('emit %r' % (s,))
+    def lean(self):
+        allocs = llist('(%s, %s)' % (lstr(self.role[n]), self.L_bound(b)) for n, b in self.arrays.items() if n in self.role)
+        nest = llist('(%s, %s)' % (self.L_bound(lo), self.L_bound(hi)) for lo, hi in self.nest)
+        return ('  { name := %s, d := %d, ax := %d, pre := %s,\n    allocs := %s,\n    nest := %s,\n    stmts := [\n      %s] }'
+                % (lstr(self.name), self.d, self.ax, 'true' if self.pre else 'false', allocs, nest,
+                   ',\n      '.join(self.L_stmt(s) for s in self.stmts)))
+
+def gen_kernel_programs():
+    items = []
+    for pre, dims in ((False, range(1, 6)), (True, (2, 3))):
+        for d in dims:
+            path = os.path.join(REPO, 'dadi', 'integration%dD.c' % d)
+            cf = c_functions(path)
+            for ax in range(d):
+                name = 'implicit_%s%dD%s' % ('precalc_' if pre else '', d, AXN[ax])
+                if name not in cf: raise TranslateError('%s not found' % name)
+                args, body = cf[name]
+                items.append(_KernelTr(name, d, ax, pre, args, body, 'integration%dD.c %s' % (d, name)).run().lean())
+    return KERNEL_PROG_TYPE + '\ndef kernelProgs : List KernelProg := [\n' + ',\n'.join(items) + '\n]'
 
 # ----------------------------------------------------------------------------------------
 # Driver programs: the time loops of one_pop … five_pops and _one/_two/_three_pops_const_params, statement by statement
